@@ -65,6 +65,15 @@ def _m(p, n, env) -> bool:
     if isinstance(p, ast.AST):
         if type(p) is not type(n):
             return False
+        if isinstance(p, ast.Compare) and len(p.ops) == 1 and isinstance(p.ops[0], (ast.Eq, ast.NotEq)) and len(getattr(n, "ops", [])) == 1 and type(n.ops[0]) is type(p.ops[0]):
+            # == and != are matched in either operand order
+            for a, b in ((n.left, n.comparators[0]), (n.comparators[0], n.left)):
+                trial = dict(env)
+                if _m(p.left, a, trial) and _m(p.comparators[0], b, trial):
+                    env.clear()
+                    env.update(trial)
+                    return True
+            return False
         for f in p._fields:
             if f in ("ctx", "type_comment", "type_params"):
                 continue
